@@ -1,6 +1,23 @@
+"""C18 deductive tier: oracle interface obligations + normalisation idiom of the oracle functions."""
+import time
 from . import normal_ded
+from ..deductive import FunctionReport
+from ..vc import iface
+from .. import frontend
 
 
 def run(tier):
-    # the tables LocalInference returns come from these oracle functions
-    return normal_ded.reports(('C16', 'C17'))
+    reps = list(normal_ded.reports(('C16', 'C17')))
+    t0 = time.time()
+    r = FunctionReport('src/mbi/local_inference.py', 'LocalInference [attributes used on the marginal oracle]')
+    try:
+        # `marginals` and `potentials` are (re)assigned by LocalInference itself before it reads them back
+        r.obligations, r.sha = iface.obligations('src/mbi/local_inference.py', 'LocalInference',
+                                                 [('src/mbi/region_graph.py', 'RegionGraph'), ('src/mbi/factor_graph.py', 'FactorGraph')],
+                                                 holder='model')
+    except frontend.MissingAnchor as e:
+        r.undecided = 'anchor missing: %s' % e
+    r.vacuity = []
+    r.seconds = time.time() - t0
+    reps.append(r)
+    return reps
